@@ -104,6 +104,8 @@ fn main() {
         #[cfg(feature = "compiler")]
         "astdbg" => incan_verif_kani::tcreplay::astdbg_main(&args[2..]),
         #[cfg(feature = "compiler")]
+        "fmtcli" => incan_verif_kani::tcreplay::fmtcli_main(&args[2..]),
+        #[cfg(feature = "compiler")]
         "fmtrt" => incan_verif_kani::tcreplay::fmtrt_main(&args[2..]),
         #[cfg(feature = "compiler")]
         "emitrust" => incan_verif_kani::tcreplay::emit_main(&args[2..]),
